@@ -96,11 +96,11 @@ theorem getCached_spec (limit : Key → Nat) (c : Cache) (k : Key) (l : Loc) (h 
         unfold Cache.lookup; rw [if_pos hk]
         have := hput; unfold Cache.lookup at this; rw [if_pos hin] at this
         exact this
-      simp only [hadd, hlk]
+      simp only [hadd, hlk, ite_self]
       exact ⟨trivial, good_shrink _ _ hgood (fun x hx => dropOther_sub k x _ hx)⟩
     · have hadd : addToCache limit c k l = c.put k l (k, l) := by
         unfold addToCache; simp only []; rw [if_neg hev]
-      simp only [hadd, hput]
+      simp only [hadd, hput, ite_self]
       exact ⟨trivial, hgood⟩
 
 /-- **C03_cache_refine**: for every history of cache accesses — any settings keys, locales and CACHE_SIZE_LIMIT values, in any
